@@ -1,5 +1,6 @@
 """C07 — patches apply only on the agreed base; a refused merge changes nothing.
 Same harness and model as C06, generator biased towards refusals."""
+import hashlib
 from vcheck.props import c06
 
 ID = "C07"
@@ -21,27 +22,121 @@ def corpus():
         "c07 k_o6_db be=db ops=ar:0:2@1,4@2|ra:0:cur:6@3|ra:0:cur:|ra:0:ok:6@3,8@4",
         "c07 k_o6_fs be=fs ops=ar:0:2@1,4@2|ra:0:cur:6@3|ra:0:cur:|ra:1:seq2:4@1|ra:0:ok:6@3,8@4",
         "c07 k_pc_fs be=fs ops=ar:0:2@1|ar:1:2@1|pc:0:other1:4@2|ar:1:6@3|pc:0:other1:8@4|pc:0:prev:8@5|pc:0:head:8@6",
+        # server side, every log type: rewind-and-patch requests with matching / default / stale / foreign proofs
+        "c07 k_srv_fs mode=server sbe=fs reqs=files:default:none:2|files:default:none:1|files:head:none:1|files:default:first:1|folder:head:none:2|folder:head:first:1|folder:prev:none:1|account:head:none:1|account:other:none:1|device:head:last:1|identity:head:none:1|files:head:first:2",
+        "c07 k_srv_db mode=server sbe=db reqs=files:default:none:2|files:default:none:1|files:head:none:1|files:default:first:1|folder:head:none:2|folder:head:first:1|folder:prev:none:1|account:head:none:1|account:other:none:1|device:head:last:1|identity:head:none:1|files:head:first:2",
         "c07 k_pc_db be=db ops=ar:0:2@1|ar:1:2@1|pc:0:other1:4@2|ar:1:6@3|pc:0:other1:8@4|pc:0:prev:8@5|pc:0:head:8@6",
     ]
 
 
+def gen_server(rng, n):
+    out = []
+    for j in range(n):
+        reqs = []
+        for _ in range(rng.randrange(6, 16)):
+            log = rng.choice(["files", "files", "folder", "folder", "account", "device", "identity"])
+            proof = rng.choice(["head", "head", "default", "prev", "other"])
+            commit = rng.choice(["none", "none", "last", "first", "i1", "i2"])
+            reqs.append("%s:%s:%s:%d" % (log, proof, commit, rng.choice([1, 1, 2, 3])))
+        out.append("c07 v%d mode=server sbe=%s reqs=%s" % (j, "db" if j % 2 else "fs", "|".join(reqs)))
+    return out
+
+
 def gen_cases(rng, tier):
-    return c06.gen_cases(rng, tier, refusal_bias=True, sub="c07")
+    return c06.gen_cases(rng, tier, refusal_bias=True, sub="c07") + gen_server(rng, 24 if tier == "quick" else 800)
+
+
+def merkle_root(leaves):
+    """rs_merkle as the SDK uses it: pairs hashed, a last odd node promoted"""
+    layer = [bytes.fromhex(x) for x in leaves]
+    if not layer: return None
+    for _ in range(len(leaves).bit_length()):
+        nxt = []
+        for i in range(0, len(layer), 2):
+            nxt.append(hashlib.sha256(layer[i] + layer[i + 1]).digest() if i + 1 < len(layer) else layer[i])
+        layer = nxt
+    return layer[0].hex()
+
+
+def server_oracle(case, obs):
+    from vcheck.props import c09
+    reqs, srv, _ = c09.parse_reqs([o for o in obs if not o.startswith("!")])
+    fails = []
+    for (n, dev, kind, ok, details) in reqs:
+        if kind != "patch": continue
+        before, after = srv.get(n - 1, {}), srv.get(n, {})
+        dkv = dict(x.split("=", 1) for x in details.split() if "=" in x)
+        name, applied = dkv.get("log"), dkv.get("applied") == "1"
+        b = before.get(name, []); a = after.get(name, [])
+        patch = [x for x in dkv.get("patch", "").split(";") if x]
+        c = dkv.get("commit", "-")
+        root, length = dkv.get("proof", "/").split("/")
+        kept = b if c == "-" else (b[:len(b) - b[::-1].index(c)] if c in b else None)
+        for other in before:
+            if other != name and before[other] != after.get(other):
+                fails.append({"oracle": "refused_unchanged", "op": "event_patch", "detail": "request %d on %s changed log %s" % (n, name, other)})
+        if not applied:
+            if a != b:
+                fails.append({"oracle": "refused_unchanged", "op": "event_patch", "log": name.split(":")[0],
+                              "detail": "request %d (%s) was refused but the %s log changed: %d -> %d records" % (n, details[:60], name.split(':')[0], len(b), len(a))})
+        else:
+            agreed = kept is not None and ((merkle_root(kept) == root and int(length) == len(kept)) or (name == "files" and not b and root == "00" * 32))
+            if not agreed:
+                fails.append({"oracle": "patch_iff_head", "op": "event_patch", "log": name.split(":")[0],
+                              "detail": "request %d applied a patch to the %s log although the checkpoint (%s../%s) is not the head of the log it was applied to (%d records)" % (n, name.split(':')[0], root[:8], length, len(kept or []))})
+            if kept is not None and a != kept + patch:
+                fails.append({"oracle": "whole_patches", "op": "event_patch", "detail": "request %d: log after an applied patch is not kept ++ patch" % n})
+        if (not applied) and kept is not None and merkle_root(kept) == root and int(length) == len(kept) and kept:
+            fails.append({"oracle": "patch_iff_head", "op": "event_patch", "log": name.split(":")[0],
+                          "detail": "request %d: the checkpoint is the head of the (rewound) %s log but the patch was refused" % (n, name.split(':')[0])})
+    return fails
+
+
+
+def model_input(cases, impl):
+    from vcheck.props import c09
+    out = []
+    for c in cases:
+        if " mode=server " not in c:
+            out.append(c); continue
+        cid = c.split()[1]
+        reqs, srv, _ = c09.parse_reqs([o for o in impl.get(cid, []) if not o.startswith("!")])
+        for name, hs in sorted(srv.get(0, {}).items()):
+            out.append("%s %s init %s %s" % (SUB, cid, name, ",".join(hs)))
+        for (n, dev, kind, ok, details) in reqs:
+            out.append("%s %s req %d %s %s" % (SUB, cid, n, kind, details))
+    return out
+
+
+def impl_projection(obs):
+    if not any(o.startswith("req ") for o in obs):
+        return [o for o in obs if not o.startswith("!")]
+    return [o for o in obs if o.startswith("req ") and " SRV " in o and not o.startswith("req 0 ")]
 
 
 def oracle(case, obs):
+    if " mode=server " in case:
+        return server_oracle(case, obs)
     keep = ("refused_unchanged", "patch_iff_head", "rewind_suffix", "no_observation", "stream_readable")
     return [f for f in c06.oracle(case, obs, want_c07=True) if f["oracle"] in keep]
 
 
 def nontrivial(case, obs):
+    if " mode=server " in case:
+        return any("applied=0" in o for o in obs)
     steps = c06.parse_obs(obs)
     return any((s["res"] or "").startswith(("err", "conflict")) and any(l["fwd"] for l in s["logs"].values())
                for s in steps.values())
 
 
 distinct_key = c06.distinct_key
-shrink = c06.shrink
+def shrink(case):
+    if " mode=server " not in case:
+        return c06.shrink(case)
+    toks = case.split()
+    d = dict(t.split("=", 1) for t in toks[2:] if "=" in t)
+    reqs = d["reqs"].split("|")
+    return ["c07 s mode=server sbe=%s reqs=%s" % (d.get("sbe", "fs"), "|".join(reqs[:i] + reqs[i + 1:])) for i in range(len(reqs)) if len(reqs) > 1]
 distribution = c06.distribution
 
 MANIFEST = {
